@@ -211,6 +211,7 @@ def build(c17):
     def sample(s):
       q = getattr(s.parent.top, s.attr); mt = s.parent.top.mt
       n = s.n
+      s.head = 0 if s.style == 'push' else 1
       if s.style == 'give':          # queues.py
         en, de = int(q.enq.en), int(q.deq.en)
         ints = (0, 0, int(q.q.full), [mt.to_int(q.q.entry)]) if n == 1 else \
